@@ -157,8 +157,8 @@ func runPg(r *core.Run) {
 	}
 	// start-up packets
 	startups := [][]byte{
-		{0, 0, 0, 8, 4, 210, 22, 47},                               // SSLRequest
-		{0, 0, 0, 8, 4, 210, 22, 48},                               // GSSENCRequest
+		{0, 0, 0, 8, 4, 210, 22, 47},                                // SSLRequest
+		{0, 0, 0, 8, 4, 210, 22, 48},                                // GSSENCRequest
 		append([]byte{0, 0, 0, 16, 4, 210, 22, 46}, rd.Bytes(8)...), // CancelRequest
 	}
 	for i := 0; i < r.N(20, 300); i++ {
